@@ -211,6 +211,11 @@ func VH_C15_store(caseID int) {
 		m := w.check(sess, present)
 		op1 := vChoice("op"+ss, 6)
 		rotated := op1 >= 3
+		if mm := w.model[present]; present != "" && mm != nil && w.live(present) == nil && w.now < mm.deadline {
+			// the store itself rotated the id of a session past its absolute deadline (the request
+			// still carries the old cookie): as unspecified as a rotation by the handler
+			rotated = true
+		}
 		m = w.op(sess, m, op1, ss, sess.Destroy)
 		if m != nil {
 			vAssert(sess.Save() == nil, "save")
